@@ -25,6 +25,10 @@ class C14:
         v = gv.strat("v", False, True)
         return st.tuples(st.sampled_from(HOSTS), v).map(lambda p: {"host": p[0], "value": gv.resolve(p[1], [])})
 
+    def strata(self, ctx):
+        v = gv.strat("v", False, True)
+        return [["host:" + h, v.map(lambda t, h=h: {"host": h, "value": gv.resolve(t, [])}), 1] for h in HOSTS]
+
     def judge(self, case, ctx):
         res = Result()
         host = case.get("host")
